@@ -54,6 +54,7 @@ def raw_hash(fam):
     txt = json.dumps(_strip(sorted(fam, key=lambda b: b["path"])), sort_keys=True)
     txt = re.sub(r"\{closure@[^}]*\}", "{closure}", txt)   # source positions inside closure type names
     txt = re.sub(r"DefId\(\d+:\d+ ~ ", "DefId(", txt)          # definition indices shift when an item is added or removed
+    txt = re.sub(r"lc3_ensemble\[[0-9a-f]+\]", "lc3_ensemble", txt)   # crate disambiguator depends on the build directory
     return hashlib.sha256(txt.encode()).hexdigest()[:20]
 
 
